@@ -21,7 +21,7 @@
 use crate::util::{hex, Canary, CANARY_BYTE};
 use crate::{burn, ensure, ensure_eq, guard, pick, set_fuel, unlimited_fuel, Ctx, Outcome, PResult};
 use arrayvec::{Array, ArrayVec};
-use libtw2_buffer::{with_buffer, Buffer, BufferRef, CapacityError, ReadBuffer, ReadBufferRef};
+use libtw2_buffer::{with_buffer, Buffer, BufferRef, CapacityError, ReadBuffer, ReadBufferRef, ToBufferRef};
 use proptest::prelude::*;
 use serde::{Deserialize, Serialize};
 use serde_json::json;
@@ -1165,6 +1165,76 @@ fn check_advance_past_end(cap: usize, pre: usize, excess: usize) -> Result<bool,
 
 // ---------------------------------------------------------------------------
 
+/// Creates the intermediate step of a view (`Buffer::to_to_buffer_ref`) on a Vec / ArrayVec / slice
+/// reference with `pre` pre-existing bytes and releases it without use.
+fn check_intermediate_dropped(cap: usize, pre: usize, variant: u8) -> Result<bool, String> {
+    if pre > cap {
+        return Ok(false);
+    }
+    let content: Vec<u8> = (0..pre).map(pre_byte).collect();
+    let cap_arg = match variant {
+        1 => Some((cap - pre) / 2),
+        2 => Some(cap - pre),
+        _ => None,
+    };
+    // Vec
+    {
+        let mut v: Vec<u8> = Vec::with_capacity(cap);
+        v.extend_from_slice(&content);
+        let ptr = v.as_ptr();
+        let r = guard(|| match (variant, cap_arg) {
+            (3, _) => {
+                let mut inter = (&mut v).to_to_buffer_ref();
+                let b = inter.to_buffer_ref();
+                drop(b);
+                drop(inter);
+            }
+            (_, Some(c)) => drop((&mut v).cap_at(c).to_to_buffer_ref()),
+            _ => drop((&mut v).to_to_buffer_ref()),
+        });
+        r.map_err(|p| format!("Vec (capacity {}, length {}): releasing an unused view: {}", cap, pre, p))?;
+        ensure!(v.len() == pre, "Vec (capacity {}, length {}): releasing an unused view changed the length to {}", cap, pre, v.len());
+        ensure!(v[..] == content[..], "Vec (capacity {}, length {}): releasing an unused view changed the contents", cap, pre);
+        ensure!(v.as_ptr() == ptr && v.capacity() >= cap, "Vec: releasing an unused view reallocated the Vec");
+    }
+    // ArrayVec<64>
+    {
+        let mut a: ArrayVec<[u8; 64]> = ArrayVec::new();
+        for &b in &content {
+            a.push(b);
+        }
+        let r = guard(|| match (variant, cap_arg) {
+            (3, _) => {
+                let mut inter = (&mut a).to_to_buffer_ref();
+                let b = inter.to_buffer_ref();
+                drop(b);
+                drop(inter);
+            }
+            (_, Some(c)) => drop((&mut a).cap_at(c.min(64 - pre)).to_to_buffer_ref()),
+            _ => drop((&mut a).to_to_buffer_ref()),
+        });
+        r.map_err(|p| format!("ArrayVec<64> (length {}): releasing an unused view: {}", pre, p))?;
+        ensure!(a.len() == pre, "ArrayVec<64> (length {}): releasing an unused view changed the length to {}", pre, a.len());
+        ensure!(a[..] == content[..], "ArrayVec<64> (length {}): releasing an unused view changed the contents", pre);
+    }
+    // slice reference: narrowed to the (empty) written prefix, memory untouched
+    {
+        let mut mem: Vec<u8> = (0..cap).map(pre_byte).collect();
+        let copy = mem.clone();
+        {
+            let mut s: &mut [u8] = &mut mem[..];
+            let sr = &mut s;
+            let r = guard(|| match cap_arg {
+                Some(c) => drop(sr.cap_at(c.min(cap)).to_to_buffer_ref()),
+                None => drop(sr.to_to_buffer_ref()),
+            });
+            r.map_err(|p| format!("slice reference (length {}): releasing an unused view: {}", cap, p))?;
+        }
+        ensure!(mem == copy, "slice reference: releasing an unused view changed the memory");
+    }
+    Ok(pre > 0)
+}
+
 pub fn run(ctx: &Ctx) {
     ctx.set_rule(
         "histories: proptest-generated trees of views (root on Vec / ArrayVec<0|1|8|32|2048> / &mut [u8] / &mut &mut [u8] with every \
@@ -1235,6 +1305,18 @@ pub fn run(ctx: &Ctx) {
             check_advance_past_end(cap, pre, (i % 3) as usize + 1)
         },
         |i| json!({"capacity": pairs[(i / 3) as usize].0, "written": pairs[(i / 3) as usize].1, "excess": i % 3 + 1}),
+    );
+
+    // A view that is released before it was ever turned into a BufferRef ("view dropped without use",
+    // at the earliest possible point): the container must be exactly as before.
+    ctx.exhaustive(
+        "intermediate_dropped",
+        65 * 65 * 4,
+        |i| check_intermediate_dropped((i / (65 * 4)) as usize, ((i / 4) % 65) as usize, (i % 4) as u8),
+        |i| {
+            let variant = ["plain", "cap_at below", "cap_at at", "converted then unused"][(i % 4) as usize];
+            json!({"capacity": i / (65 * 4), "pre_existing": (i / 4) % 65, "variant": variant})
+        },
     );
 
     // (the index -> case mapping of small_exhaustive depends on whether the cap_at finding is listed:
